@@ -7,6 +7,7 @@ import (
 	"io"
 	"net"
 	"net/http"
+	"os"
 	"reflect"
 	"sync"
 	"testing"
@@ -41,7 +42,7 @@ func statusEndpoints(n *TNode) (map[string]int, error) {
 }
 
 func TestC16(t *testing.T) {
-	vlib.SetRule("C16", "TestC16", "1-2 real nodes with an HMAC-protected upstream port (in a third of the cases multi-tenant, every listener connecting as the tenant); 2-6 upstream listeners on shared and distinct endpoints connect through cuttable relays and end in a drawn order by: client Shutdown, go-away (optionally hit by a request, the proxy's ErrGone removal) then Shutdown, abrupt relay cut (FIN or RST), server-initiated shedding (Rebalance), optionally with a slow request in flight; then 0-2 listeners with a token expiring 1.2-2.2 s ahead (disconnect-on-expiry enabled or disabled per cluster); finally node shutdown (in a third of the cases with a 1 s grace period while a client that sent half a request occupies the upstream port); oracle at every quiescent point: status API registry == cluster endpoints == model of open connections and open-session count == model, everything empty/0 after shutdown; expiry: still registered 300 ms before exp, deregistered in [exp, exp+deadline], or still registered 1 s after exp when disabled; in-flight requests end in 200 or a gateway error; non-trivial = two different ending modes hit the same endpoint while a sibling stays connected, or an ending with a request in flight")
+	vlib.SetRule("C16", "TestC16", "1-2 real nodes with an HMAC-protected upstream port (in a third of the cases multi-tenant, every listener connecting as the tenant; in a quarter of the others keyed by a JWK set file); 2-6 upstream listeners on shared and distinct endpoints connect through cuttable relays and end in a drawn order by: client Shutdown, go-away (optionally hit by a request, the proxy's ErrGone removal) then Shutdown, abrupt relay cut (FIN or RST), server-initiated shedding (Rebalance), optionally with a slow request in flight; then 0-2 listeners with a token expiring 1.2-2.2 s ahead (disconnect-on-expiry enabled or disabled per cluster); finally node shutdown (in a third of the cases with a 1 s grace period while a client that sent half a request occupies the upstream port); oracle at every quiescent point: status API registry == cluster endpoints == model of open connections and open-session count == model, everything empty/0 after shutdown; expiry: still registered 300 ms before exp, deregistered in [exp, exp+deadline], or still registered 1 s after exp when disabled; in-flight requests end in 200 or a gateway error; non-trivial = two different ending modes hit the same endpoint while a sibling stays connected, or an ending with a request in flight")
 	vlib.Run(t, "C16", func(c *vlib.Case) {
 		k := TestKeys()
 		N := c.Int("nodes", 1, 2)
@@ -58,9 +59,37 @@ func TestC16(t *testing.T) {
 			signKey, tenantID = []byte("tenant-t0-key-0123456789abcdef0123456"), "t0"
 			c.Class("multi-tenant-upstream-port")
 		}
+		// a quarter of the single-tenant clusters take their key from a JWK set file
+		// (tokens are then RS256)
+		useJWKS := !useTenants && c.Chance("jwks", 1, 4)
+		jwksPath := ""
+		if useJWKS {
+			dir, err := os.MkdirTemp("", "verif-c16-")
+			if err != nil {
+				c.Harnessf("%v", err)
+			}
+			defer os.RemoveAll(dir)
+			if jwksPath, err = writeJWKS(dir); err != nil {
+				c.Harnessf("%v", err)
+			}
+			c.Class("jwks-key-configuration")
+		}
+		mint := func(exp time.Time) string {
+			if useJWKS {
+				return MintRS(nil, exp)
+			}
+			return MintHS(signKey, nil, exp)
+		}
 		cl, err := StartCluster(N, false, func(i int, conf *config.Config) {
 			if stalled {
 				conf.GracePeriod = time.Second
+			}
+			if useJWKS {
+				conf.Upstream.Auth.JWKS.Endpoint = "file://" + jwksPath
+				conf.Upstream.Auth.DisableDisconnectOnExpiry = disableExpiry
+				conf.Upstream.Rebalance.MinConns = 0
+				conf.Upstream.Rebalance.ShedRate = 0.3
+				return
 			}
 			if useTenants {
 				conf.Upstream.Tenants = []config.TenantConfig{{ID: "t0", Auth: auth.Config{HMACSecretKey: string(signKey), DisableDisconnectOnExpiry: disableExpiry}}}
@@ -91,7 +120,7 @@ func TestC16(t *testing.T) {
 			if err != nil {
 				c.Harnessf("relay: %v", err)
 			}
-			tok := MintHS(signKey, nil, exp)
+			tok := mint(exp)
 			u, err := ConnectUpstream(context.Background(), node, fmt.Sprintf("u%d", id), ep, "sdk-http", UpstreamOpts{URL: "http://" + r.Addr(), Token: tok, TenantID: tenantID})
 			if err != nil {
 				c.Fatalf("C16: upstream u%d could not connect: %v", id, err)
